@@ -600,7 +600,13 @@ def _run_routing(case, ctx):
                                    **dict({k: v for k, v in gen.DEFAULT_UNITS.items() if not k.startswith("pressure")}, **gen.temp_kw(T)))
     a = pygaps.Adsorbate.find("nitrogen")
     adsd = dict(ads, liquid_density=a.liquid_density(T), adsorbate_molar_mass=a.molar_mass())
-    res = _call(pm.psd_microporous, iso, psd_model=model, pore_geometry=geo, material_model=mat_arg, adsorbate_model=None if lookup else adsd, p_limits=(None, None))
+    lims, k0 = (None, None), 0
+    if case["seed"] % 3 == 1 and not lookup and n >= 7:
+        # a lower pressure limit that cuts the first readings off: the analysis is that of the remaining points as they are
+        k0 = r.randint(1, 3)
+        lims = (float((p[k0 - 1] + p[k0]) / 2), None)
+        ctx.count("routing", "lower-pressure-limit-cuts-points")
+    res = _call(pm.psd_microporous, iso, psd_model=model, pore_geometry=geo, material_model=mat_arg, adsorbate_model=None if lookup else adsd, p_limits=lims)
     ctx.case(["routing", model, geo, case["seed"]])
     if lookup:
         ctx.count("routing", "adsorbate-looked-up/T=%g" % T)
@@ -638,7 +644,7 @@ def _run_routing(case, ctx):
     fn = pm.psd_horvath_kawazoe if model.startswith("HK") else pm.psd_horvath_kawazoe_ry
     # (the temperature as the isotherm holds it: a Celsius record returns 77.35500000000002 K, and the bounded minimiser
     # of the Cheng-Yang variants is sensitive to the last bits)
-    direct = _call(fn, p, loading, iso.temperature, geo, adsd, mat, model.endswith("CY"))
+    direct = _call(fn, p[k0:], loading[k0:], iso.temperature, geo, adsd, mat, model.endswith("CY"))
     if direct[0] == "ok":
         same = all(numpy.allclose(numpy.asarray(x, dtype=float), numpy.asarray(y, dtype=float), rtol=1e-9, atol=1e-12) for x, y in zip(
             (res[1]["pore_widths"], res[1]["pore_distribution"], res[1]["pore_volume_cumulative"]), direct[1]))
